@@ -94,8 +94,9 @@ def gen_ref(rng, kind=None):
             segs[0] = 'z'          # a leading empty segment would spell an absolute path
         return {'k': 'rel', 'segs': segs, 'sfx': gen_sfx(rng)}
     if kind == 'path':
-        if segs and segs[0] == '':
-            segs[0] = 'z'          # "//" would spell a network path
+        # "//" at the start spells a network path, and "/.//x" resolves to a path starting with "//" that
+        # urlunsplit re-reads as an authority under file: - outside the modelled shapes
+        segs = [s_ for i_, s_ in enumerate(segs) if s_ != '' or i_ == len(segs) - 1]
         return {'k': 'path', 'segs': segs, 'sfx': gen_sfx(rng)}
     return {'k': 'net', 'auth': rng.choice(['h7', 'other.example:81']), 'segs': [s for s in segs if s not in ('..', '.')] or ['n'],
             'sfx': gen_sfx(rng)}
@@ -290,8 +291,17 @@ def abs_string(t):
     return _q(show_base(t) + t.get('sfx', ''), safe=SAFE)
 
 
+SPELL_COUNTS = {}
+
+
 def spell(rng, ctx, t):
     """a reference that resolves to target t from the context base ctx (None = no hierarchical base)"""
+    r = _spell(rng, ctx, t)
+    SPELL_COUNTS[r['k']] = SPELL_COUNTS.get(r['k'], 0) + 1
+    return r
+
+
+def _spell(rng, ctx, t):
     if 'opaque' in t:
         return {'k': 'opaque', 's': t['opaque']}
     full = {'k': 'abs', 'b': {'scheme': t['scheme'], 'auth': t['auth'], 'segs': list(t['segs'])}, 'sfx': t.get('sfx', '')}
@@ -740,8 +750,10 @@ def failure_sets(rng, gen, thorough):
     if thorough:
         for k in (2, 3, 4):
             combos = list(itertools.combinations(urls, k))
-            rng.shuffle(combos)
-            for c in combos[:40 if k == 2 else 25]:
+            if len(urls) > 7:              # all subsets up to size 4 for <= 7 resources, a sample beyond
+                rng.shuffle(combos)
+                combos = combos[:40 if k == 2 else 25]
+            for c in combos:
                 sets.append({u: mode_for(u) for u in c})
     else:
         for _ in range(min(4, len(urls))):
@@ -798,6 +810,7 @@ def expected_log_problems(gen, fails, res):
 
 def stream_docs(run, rng, ndocs, thorough=False):
     t_cases = []
+    SPELL_COUNTS.clear()
     for i in range(ndocs):
         nres = rng.choice([1, 2, 3, 4, 5, 6, 8, 10, 12, 12])
         gen = DocGen(random.Random(rng.getrandbits(48)), nres)
@@ -812,7 +825,7 @@ def stream_docs(run, rng, ndocs, thorough=False):
     outs = common.run_impl('impl_c20', 'render_case', jobs, limit=120, chunksize=4)
     coq, kept = [], []
     stats = {'renders': len(jobs), 'fetches': 0, 'failing_fetches': 0, 'modes': {}, 'kinds': {}, 'schemes': {}, 'audit_events': 0,
-             'relative_refs': 0, 'options': {}}
+             'reference_spellings': dict(SPELL_COUNTS), 'options': {}}
     reported = set()
 
     def fail_once(sig_key, what, data, signature=None):
